@@ -129,8 +129,8 @@ def _search_chunk(args):
     return dict(stats), fails
 
 def search(ctx, deep):
-    n = (150 if ctx.tier == "quick" else 700) * (3 if deep else 1)
-    ncli = 6 if ctx.tier == "quick" else 25
+    n = (150 if ctx.tier == "quick" else 2500) * (3 if deep else 1)
+    ncli = 6 if ctx.tier == "quick" else 60
     stats = collections.Counter()
     fails = []
     for st, f in par.pmap(_search_chunk, [(ctx.seed * 127 + j, n, ncli) for j in range(ctx.jobs)], ctx.jobs):
